@@ -9,13 +9,22 @@ EXTENDS Naturals, Sequences, FiniteSets, TLC, Json, IOUtils
 
 TraceFile == JsonDeserialize(IOEnv.TRACE_FILE)
 Events == TraceFile.events
-T_PfxNs == TraceFile.pfxns
-T_CanonPfx == TraceFile.canon
 T_UpperOf == TraceFile.upper
 NoDev == {}
 NoArgs == {}
 
 VARIABLES cur, com, memo, l, bad
+\* The atom tables either come with the trace (pfxns, canon) or are derived by the specification
+\* from the namespace table of the recorded site (nstab: entries [id, canonical, local, aliases],
+\* fold: letter-case facts of the prefix spellings; PageStore.tla, Ns* operators).
+NT == INSTANCE PageStore WITH PfxNs <- <<>>, CanonPfx <- <<>>, UpperOf <- <<>>, Dev <- NoDev, ArgU <- NoArgs
+HasTable == "nstab" \in DOMAIN TraceFile
+T_Tab == {TraceFile.nstab[i] : i \in 1..Len(TraceFile.nstab)}
+T_PfxNsV == IF HasTable THEN NT!NsRefPfxNs(T_Tab, TraceFile.fold) ELSE TraceFile.pfxns
+T_CanonPfxV == IF HasTable THEN NT!NsCanonPfx(T_Tab) ELSE TraceFile.canon
+T_PfxNs == T_PfxNsV
+T_CanonPfx == T_CanonPfxV
+TableOK == HasTable => NT!NsUnambiguous(T_Tab, TraceFile.fold)
 PS == INSTANCE PageStore WITH PfxNs <- T_PfxNs, CanonPfx <- T_CanonPfx, UpperOf <- T_UpperOf,
                               Dev <- NoDev, ArgU <- NoArgs
 
@@ -74,7 +83,7 @@ TNext == l <= Len(Events) /\ Step(Events[l]) /\ l' = l + 1
 TSpec == TInit /\ [][TNext]_tvars
 
 \* printed once, in the state that has consumed the whole trace
-Verdict == (l = Len(Events) + 1) => PrintT(<<"VERDICT", ToJson([consumed |-> l - 1, bad |-> bad])>>)
+Verdict == (l = Len(Events) + 1) => PrintT(<<"VERDICT", ToJson([consumed |-> l - 1, bad |-> bad, tableok |-> TableOK])>>)
 \* the model-level invariant must hold along every validated execution too
 Coherent == PS!MemoCoherent
 Accepted == TLCGet("stats").diameter = Len(Events) + 1
